@@ -426,17 +426,18 @@ class Oracle:
     def _three_factor(self, first_b, second_b, first_pos, second_pos, reward, scale):
         """first_b / second_b: per-sample non-negative magnitudes; reward: float or per-sample tensor"""
         if isinstance(reward, torch.Tensor):
-            r = reward.detach().to(torch.float64).numpy() * scale
+            # documented: the scale is expected to be non-negative and its absolute value is used - direction comes from the signal
+            r = reward.detach().to(torch.float64).numpy()
             shp = (-1,) + (1,) * (first_b.ndim - 1)
-            mag = np.abs(r).reshape(shp)
+            mag = np.abs(r * scale).reshape(shp)
             sgn = (r >= 0).reshape(shp)
             f, s = first_b * mag, second_b * mag
             pos = np.where(sgn == first_pos, f, 0.0) + np.where(sgn == second_pos, s, 0.0)
             neg = np.where(sgn != first_pos, f, 0.0) + np.where(sgn != second_pos, s, 0.0)
             # the rule concatenates the selected samples and reduces: for a sum this is the sum over samples
             return pos.sum(0), neg.sum(0)
-        r = float(reward) * scale
-        f, s = _reduce(self.red, first_b) * abs(r), _reduce(self.red, second_b) * abs(r)
+        r = float(reward)
+        f, s = _reduce(self.red, first_b) * abs(r * scale), _reduce(self.red, second_b) * abs(r * scale)
         fp = (first_pos and r >= 0) or ((not first_pos) and r < 0)
         sp = (second_pos and r >= 0) or ((not second_pos) and r < 0)
         if r == 0:
